@@ -236,7 +236,8 @@ theorem list_empty_lines (cc : CharClass) (st : WSt) (cm : Bool) (columns : Nat)
 
 theorem respects_list (cc : CharClass) (st : WSt) (cm : Bool) (columns spacing : Nat)
     (kp : Option KeyPat) (u : Option Int) (nw : List NumW) (items : List Wd) (w : Int)
-    (hfit : ∀ it ∈ items, ∀ w', RespectsWidth cc it w') :
+    (hfit : ∀ i, (hi : i < items.length) →
+      RespectsWidth cc items[i] (usedWidth none columns spacing w - kpLabelLen kp i)) :
     RespectsWidth cc (.list st cm columns none spacing kp u nw items) w := by
   intro r h row hrow
   by_cases hne : items = []
@@ -246,7 +247,7 @@ theorem respects_list (cc : CharClass) (st : WSt) (cm : Bool) (columns spacing :
   · obtain ⟨hc, hu, _⟩ := list_ok_room cc st cm columns none spacing kp u nw items w r hne h
     obtain ⟨items', labels, sh⟩ := shape_of_render st u nw h
     have wo := widthOK_of_render cc st cm columns none spacing kp u nw items w r items' labels hne h sh
-      (fun i hi => hfit _ (List.getElem_mem hi) _)
+      hfit
     have hw := container_rowsWithin cm columns (usedWidth none columns spacing w) spacing labels
       (items'.map Wd.lines) (rowHeight cm columns (listHeights (items'.map Wd.lines) labels)) wo
     rw [List.length_map, ← sh.lines] at hw
